@@ -26,6 +26,25 @@ pub fn build_result_archive(
 
     // Create a zip writer for the desired archive.
     let archive = File::create(archive_path)?;
+    let written = write_result_archive(archive, results, original_model_str, formulae);
+    if written.is_err() {
+        // Do not leave an incomplete archive behind. When the zip writer is dropped after an error,
+        // it still finalizes the archive with whatever was written so far. The result is a well-formed
+        // zip file in which the entry that was being written is cut short (with a matching checksum),
+        // and such a truncated BDD dump can load as a different set.
+        // The file is emptied rather than unlinked: the path may be a device or a link.
+        let _ = File::create(archive_path);
+    }
+    written
+}
+
+/// Write all the parts of the result archive (see [build_result_archive]) using the given (empty) file.
+fn write_result_archive(
+    archive: File,
+    results: LabelToSetMap,
+    original_model_str: &str,
+    formulae: Vec<String>,
+) -> Result<(), std::io::Error> {
     let mut zip_writer = ZipWriter::new(archive);
 
     for (set_name, set) in results.iter() {
